@@ -297,6 +297,12 @@ def _gen_128(rng, max_len):
             cands.append(rng.randrange(FREE_LO, clear - FREE_GAP - L))
         loader = eloader = rng.choice(cands)
     o7ffd = rng.choice((0, 16, 7, 0x17, 0x10 | rng.randrange(8), rng.randrange(64), rng.randrange(64), 0x20 | rng.randrange(32), 63))
+    if o7ffd & 0x30 == 0x20:
+        # Paging locked with ROM 0 (the 128K editor ROM) selected while the bank loader has just done EI: ROM 0's interrupt
+        # routine needs to page ROM 1 in, cannot, and recurses until the stack has eaten the memory - on real hardware too.
+        # Whether an interrupt falls between EI and START depends on the tape length (seen for 2 of 1200 lengths), so such a
+        # value makes the outcome a race that no loader could win; the ROM-1 variant of the same value is used instead.
+        o7ffd |= 0x10
     # --- start address
     r = rng.random()
     if r < 0.15:
